@@ -55,43 +55,62 @@ pub fn run(rng: &mut Rng, full: bool) -> Value {
         };
         let tc = cp.temperature.convert_to(KELVIN);
         let np = if full { 6 } else { 4 };
-        let temps: Vec<f64> = (0..np).map(|_| tc * rng.range(0.55, 0.97)).collect();
+        let mut temps: Vec<f64> = (0..np).map(|_| tc * rng.range(0.55, 0.97)).collect();
+        temps[0] = tc * rng.range(0.85, 0.97);
         let tarr = Array1::from_vec(temps.clone()) * KELVIN;
         let moles = Moles::from_reduced(arr1(&[1.0]));
-        // ---- vapor pressure, with and without extrapolation (one temperature above the critical point)
-        for extrapolate in [false, true] {
-            let mut ts = temps.clone();
-            ts.push(tc * 1.05);
-            let ta = Array1::from_vec(ts.clone()) * KELVIN;
-            let direct: Vec<f64> = ts.iter().map(|&t| PhaseEquilibrium::vapor_pressure(&eos, t * KELVIN)[0].map_or(f64::NAN, |p| p.convert_to(PASCAL))).collect();
-            let dummy = Array1::from_elem(ts.len(), 1.0) * PASCAL;
-            let ds: Arc<dyn DataSet<PcSaft>> = Arc::new(VaporPressure::new(dummy, ta.clone(), extrapolate, None, None));
-            let ta2 = tarr.clone();
-            let regen = move |p: &[f64]| -> Option<Arc<dyn DataSet<PcSaft>>> {
-                // model-generated targets at the sub-critical temperatures
-                Some(Arc::new(VaporPressure::new(Array1::from_vec(p[..p.len() - 1].to_vec()) * PASCAL, ta2.clone(), extrapolate, None, None)))
-            };
-            let regen_sub = |p: &[f64]| -> Option<Arc<dyn DataSet<PcSaft>>> {
-                if p.len() < 2 {
-                    return None;
+        // ---- vapor pressure: every combination of the constructor options `extrapolate` and `critical_temperature`
+        // (None = largest data temperature; a start value BELOW some data temperatures, i.e. an underestimated T_c; a start
+        // value above all of them), data temperatures up to 0.97 T_c plus one above the model's critical point
+        let mut ts = temps.clone();
+        ts.push(tc * 1.05);
+        let ta = Array1::from_vec(ts.clone()) * KELVIN;
+        let opts = SolverOptions::default();
+        for (ict, ct) in [None, Some(tc * rng.range(0.6, 0.8)), Some(tc * rng.range(1.0, 1.2))].into_iter().enumerate() {
+            for extrapolate in [false, true] {
+                // the documented fallback: ln p linear in 1/T through the critical point and the point at 0.9 T_c, in SI units
+                let max_t = ct.unwrap_or(ts.iter().cloned().fold(f64::MIN, f64::max));
+                let extrap = |t: f64| -> f64 {
+                    let cp = match State::critical_point(&eos, None, Some(max_t * KELVIN), opts).or_else(|_| State::critical_point(&eos, None, None, opts)) {
+                        Ok(cp) => cp,
+                        Err(_) => return f64::NAN,
+                    };
+                    let (tcm, pc) = (cp.temperature.convert_to(KELVIN), cp.pressure(Contributions::Total).convert_to(PASCAL));
+                    let t0 = 0.9 * tcm;
+                    let p0 = match PhaseEquilibrium::pure(&eos, t0 * KELVIN, None, opts) {
+                        Ok(v) => v.vapor().pressure(Contributions::Total).convert_to(PASCAL),
+                        Err(_) => return f64::NAN,
+                    };
+                    let b = (pc / p0).ln() / (1.0 / tcm - 1.0 / t0);
+                    pc * (b * (1.0 / t - 1.0 / tcm)).exp()
+                };
+                let mut extrapolated_idx = Vec::new();
+                let direct: Vec<f64> = ts.iter().enumerate().map(|(i, &t)| match PhaseEquilibrium::vapor_pressure(&eos, t * KELVIN)[0] {
+                    Some(p) => p.convert_to(PASCAL),
+                    None if extrapolate => {
+                        extrapolated_idx.push(i);
+                        extrap(t)
+                    }
+                    None => f64::NAN,
+                }).collect();
+                let dummy = Array1::from_elem(ts.len(), 1.0) * PASCAL;
+                let ctq = ct.map(|t| t * KELVIN);
+                let ds: Arc<dyn DataSet<PcSaft>> = Arc::new(VaporPressure::new(dummy, ta.clone(), extrapolate, ctq, None));
+                let inputs = json!({"T": ts, "Tc_model": tc, "critical_temperature_option": ct, "extrapolate": extrapolate, "component": format!("{:?}", c)});
+                let ta2 = ta.clone();
+                let mut r = record(&format!("VaporPressure(extrapolate={extrapolate}, critical_temperature option {ict})"), &eos, ds, direct.clone(),
+                    &move |p: &[f64]| Some(Arc::new(VaporPressure::new(Array1::from_vec(p.to_vec()) * PASCAL, ta2.clone(), extrapolate, ctq, None)) as Arc<dyn DataSet<PcSaft>>), inputs);
+                r["extrapolated_idx"] = json!(extrapolated_idx);
+                out.push(r);
+                if !extrapolate {
+                    // the prediction above T_c is NaN: model-generated targets on the sub-critical part, same options
+                    let tsub = tarr.clone();
+                    let sub: Arc<dyn DataSet<PcSaft>> = Arc::new(VaporPressure::new(Array1::from_elem(temps.len(), 1.0) * PASCAL, tarr.clone(), false, ctq, None));
+                    out.push(record(&format!("VaporPressure(extrapolate=false, subcritical, critical_temperature option {ict})"), &eos, sub, direct[..temps.len()].to_vec(),
+                        &move |p: &[f64]| Some(Arc::new(VaporPressure::new(Array1::from_vec(p.to_vec()) * PASCAL, tsub.clone(), false, ctq, None)) as Arc<dyn DataSet<PcSaft>>),
+                        json!({"T": temps, "Tc_model": tc, "critical_temperature_option": ct, "extrapolate": false, "component": format!("{:?}", c)})));
                 }
-                regen(p)
-            };
-            // for extrapolate = false the last prediction is NaN: evaluate the sub-critical part on its own
-            let pred_all = ds.predict(&eos).map(|a| a.to_vec()).unwrap_or_default();
-            let mut r = record(&format!("VaporPressure(extrapolate={extrapolate})"), &eos, ds.clone(), direct.clone(), &regen_sub, json!({"T": ts, "Tc": tc, "component": format!("{:?}", c)}));
-            if !extrapolate && pred_all.len() == ts.len() {
-                let sub: Arc<dyn DataSet<PcSaft>> = Arc::new(VaporPressure::new(Array1::from_elem(temps.len(), 1.0) * PASCAL, tarr.clone(), false, None, None));
-                let r2 = record("VaporPressure(extrapolate=false, subcritical)", &eos, sub, direct[..temps.len()].to_vec(), &|p: &[f64]| {
-                    Some(Arc::new(VaporPressure::new(Array1::from_vec(p.to_vec()) * PASCAL, tarr.clone(), false, None, None)) as Arc<dyn DataSet<PcSaft>>)
-                }, json!({"T": temps, "Tc": tc, "component": format!("{:?}", c)}));
-                out.push(r2);
-                r["expect_nan_last"] = json!(true);
             }
-            if extrapolate {
-                r["expect_finite_last"] = json!(true);
-            }
-            out.push(r);
         }
         // ---- liquid density at (T, p), p above the vapour pressure
         let ps: Vec<f64> = temps.iter().map(|&t| PhaseEquilibrium::vapor_pressure(&eos, t * KELVIN)[0].map_or(1e6, |p| p.convert_to(PASCAL)) * rng.range(1.2, 5.0) + 1e5).collect();
@@ -120,23 +139,27 @@ pub fn run(rng: &mut Rng, full: bool) -> Value {
             if *ph == Phase::Liquid { pv * 1.5 + 1e5 } else { pv * 0.5 }
         }).collect();
         let pta = Array1::from_vec(pt.clone()) * PASCAL;
-        let st = |i: usize| State::new_npt(&eos, temps[i] * KELVIN, pt[i] * PASCAL, &moles, phases[i].into());
+        // both forms of the `phase` option: Some(phases) and None (DensityInitialization::None = the stable phase)
+        for with_phase in [true, false] {
+        let phase_opt = if with_phase { Some(&phases) } else { None };
+        let st = |i: usize| State::new_npt(&eos, temps[i] * KELVIN, pt[i] * PASCAL, &moles, if with_phase { phases[i].into() } else { DensityInitialization::None });
         let direct: Vec<f64> = (0..np).map(|i| st(i).and_then(|s| s.viscosity()).map_or(f64::NAN, |v| v.convert_to(PASCAL * SECOND) * 1e3)).collect();
         let (ta, pa, ph) = (tarr.clone(), pta.clone(), phases.clone());
-        out.push(record("Viscosity", &eos, Arc::new(Viscosity::new(Array1::from_elem(np, 1.0) * (MILLI * PASCAL * SECOND), tarr.clone(), pta.clone(), Some(&phases))), direct,
-            &move |p: &[f64]| Some(Arc::new(Viscosity::new(Array1::from_vec(p.to_vec()) * (MILLI * PASCAL * SECOND), ta.clone(), pa.clone(), Some(&ph))) as Arc<dyn DataSet<PcSaft>>),
-            json!({"T": temps, "p": pt, "component": format!("{:?}", c)})));
+        out.push(record(&format!("Viscosity(phase given: {with_phase})"), &eos, Arc::new(Viscosity::new(Array1::from_elem(np, 1.0) * (MILLI * PASCAL * SECOND), tarr.clone(), pta.clone(), phase_opt)), direct,
+            &move |p: &[f64]| Some(Arc::new(Viscosity::new(Array1::from_vec(p.to_vec()) * (MILLI * PASCAL * SECOND), ta.clone(), pa.clone(), if with_phase { Some(&ph) } else { None })) as Arc<dyn DataSet<PcSaft>>),
+            json!({"T": temps, "p": pt, "phase_option": with_phase, "component": format!("{:?}", c)})));
         let direct: Vec<f64> = (0..np).map(|i| st(i).and_then(|s| s.thermal_conductivity()).map_or(f64::NAN, |v| v.convert_to(WATT / METER / KELVIN))).collect();
         let (ta, pa, ph) = (tarr.clone(), pta.clone(), phases.clone());
-        out.push(record("ThermalConductivity", &eos, Arc::new(ThermalConductivity::new(Array1::from_elem(np, 1.0) * (WATT / METER / KELVIN), tarr.clone(), pta.clone(), Some(&phases))), direct,
-            &move |p: &[f64]| Some(Arc::new(ThermalConductivity::new(Array1::from_vec(p.to_vec()) * (WATT / METER / KELVIN), ta.clone(), pa.clone(), Some(&ph))) as Arc<dyn DataSet<PcSaft>>),
-            json!({"T": temps, "p": pt, "component": format!("{:?}", c)})));
+        out.push(record(&format!("ThermalConductivity(phase given: {with_phase})"), &eos, Arc::new(ThermalConductivity::new(Array1::from_elem(np, 1.0) * (WATT / METER / KELVIN), tarr.clone(), pta.clone(), phase_opt)), direct,
+            &move |p: &[f64]| Some(Arc::new(ThermalConductivity::new(Array1::from_vec(p.to_vec()) * (WATT / METER / KELVIN), ta.clone(), pa.clone(), if with_phase { Some(&ph) } else { None })) as Arc<dyn DataSet<PcSaft>>),
+            json!({"T": temps, "p": pt, "phase_option": with_phase, "component": format!("{:?}", c)})));
         let direct: Vec<f64> = (0..np).map(|i| st(i).and_then(|s| s.diffusion()).map_or(f64::NAN, |v| v.convert_to(METER.powi::<P2>() / SECOND) * 1e4)).collect();
         let (ta, pa, ph) = (tarr.clone(), pta.clone(), phases.clone());
         let cm2s = (CENTI * METER).powi::<P2>() / SECOND;
-        out.push(record("Diffusion", &eos, Arc::new(Diffusion::new(Array1::from_elem(np, 1.0) * cm2s, tarr.clone(), pta.clone(), Some(&phases))), direct,
-            &move |p: &[f64]| Some(Arc::new(Diffusion::new(Array1::from_vec(p.to_vec()) * cm2s, ta.clone(), pa.clone(), Some(&ph))) as Arc<dyn DataSet<PcSaft>>),
-            json!({"T": temps, "p": pt, "component": format!("{:?}", c)})));
+        out.push(record(&format!("Diffusion(phase given: {with_phase})"), &eos, Arc::new(Diffusion::new(Array1::from_elem(np, 1.0) * cm2s, tarr.clone(), pta.clone(), phase_opt)), direct,
+            &move |p: &[f64]| Some(Arc::new(Diffusion::new(Array1::from_vec(p.to_vec()) * cm2s, ta.clone(), pa.clone(), if with_phase { Some(&ph) } else { None })) as Arc<dyn DataSet<PcSaft>>),
+            json!({"T": temps, "p": pt, "phase_option": with_phase, "component": format!("{:?}", c)})));
+        }
     }
     // ---- binary VLE data sets (propane / a heavier random component): inputs generated by the model itself
     let mut bin = Vec::new();
